@@ -312,3 +312,16 @@ Proof.
   - unfold construct, propagate, constant_node, attach, mk. cbn. rewrite Nat.eqb_refl. split; reflexivity.
   - unfold construct, propagate, constant_node, attach, mk. cbn. rewrite Nat.eqb_refl. split; reflexivity.
 Qed.
+
+(* C07: an initializer carries exactly its array (dtype normalised), typed by the array's own dtype and shape *)
+Theorem initializer_value_typed e s c bk r :
+  c_strict c = false ->
+  construct c bk (initializer_node e s) r
+    = Ok [("arg", Some (Tensor (norm_elem e) (Some (map DConst s))), Some (VArr (norm_elem e) s), false)] /\
+  conforms (Tensor (norm_elem e) (Some (map DConst s))) (VArr (norm_elem e) s) = true.
+Proof.
+  intros Hs. destruct c as [g nf d st]. cbn in Hs. subst st.
+  unfold construct, propagate, initializer_node, attach, mk. cbn.
+  change (forallb2 dim_sub (map DConst s) (map DConst s)) with (shape_le s (Some (map DConst s))).
+  rewrite shape_le_self, dtype_ok_self, dtype_conf_self. split; reflexivity.
+Qed.
